@@ -233,7 +233,11 @@ func (i pyInt) Operator(operator Operator, operand pyObject) pyObject {
 		case GreaterThanOrEqual:
 			return newPyBool(i >= o)
 		case Modulo:
-			return i % o
+			m := i % o
+			if m != 0 && (m < 0) != (o < 0) {
+				m += o // the result takes the sign of the divisor, as in Python
+			}
+			return m
 		case In:
 			panic("bad operator: 'in' int")
 		}
